@@ -455,6 +455,122 @@ def verdict (before after : Option (Nat × Obs)) : Bool :=
   | some (i, a), some (j, b) => if i = j then reach a b else reach fresh b
   | none, some (_, b) => reach fresh b
 
+theorem cacheFind_isSome_of_mem {c : List CEntry} {k : Key} {tag : Nat} {e : CEntry} (he : e ∈ c) (hk : e.key = k) (ht : e.tag = tag) :
+    (cacheFind c k tag).isSome = true := by
+  unfold cacheFind
+  rw [Option.isSome_map]
+  rw [List.find?_isSome]
+  exact ⟨e, he, by simp [hk, ht]⟩
+
+theorem cacheFind_eraseIdx {c : List CEntry} {k : Key} {tag i : Nat} (h : (cacheFind (c.eraseIdx i) k tag).isSome = true) :
+    (cacheFind c k tag).isSome = true := by
+  unfold cacheFind at h
+  rw [Option.isSome_map, List.find?_isSome] at h
+  obtain ⟨e, he, hp⟩ := h
+  simp only [Bool.and_eq_true, beq_iff_eq] at hp
+  exact cacheFind_isSome_of_mem (List.mem_of_mem_eraseIdx he) hp.1 hp.2
+
+theorem cacheFind_cons_other {c : List CEntry} {k k' : Key} {tag tag' : Nat} {v : Val} (h : k ≠ k') :
+    cacheFind (⟨k', tag', v⟩ :: c) k tag = cacheFind c k tag := by
+  unfold cacheFind
+  have : (k' == k) = false := by simp; exact fun e => h e.symm
+  simp [List.find?_cons, this]
+
+/-- **The monitor accepts every run of the model**: a step leaves the hooks' view of a key's
+generation unchanged or changes it by one `move` -/
+theorem step_obs {s : State} (st : Step) (hi : Inv s) (he : enabled s st) (k : Key) (id : Nat) (a b : Obs)
+    (ha : obsOf s k = some (id, a)) (hb : obsOf (apply s st) k = some (id, b)) : a = b ∨ move a b = true := by
+  unfold obsOf at ha hb
+  cases hg : s.index k with
+  | none => rw [hg] at ha; cases ha
+  | some g =>
+    rw [hg] at ha
+    simp only [Option.map_some, Option.some.injEq, Prod.mk.injEq] at ha
+    obtain ⟨hid, hao⟩ := ha
+    cases st with
+    | put k' v =>
+      simp only [apply] at hb
+      by_cases hk : k = k'
+      · subst hk
+        rw [update_same] at hb
+        simp only [Option.map_some, Option.some.injEq, Prod.mk.injEq] at hb
+        have := hi.idx k g hg
+        omega
+      · rw [update_other _ _ _ _ hk, hg] at hb
+        simp only [Option.map_some, Option.some.injEq, Prod.mk.injEq] at hb
+        left; rw [← hao, ← hb.2]
+    | del k' =>
+      simp only [apply] at hb
+      by_cases hk : k = k'
+      · subst hk; rw [update_same] at hb; cases hb
+      · rw [update_other _ _ _ _ hk, hg] at hb
+        simp only [Option.map_some, Option.some.injEq, Prod.mk.injEq] at hb
+        left; rw [← hao, ← hb.2]
+    | writeOut k' sec =>
+      obtain ⟨g', v, hg', hr, hs, hd⟩ := he
+      simp only [apply, hg'] at hb
+      by_cases hk : k = k'
+      · subst hk
+        rw [hg] at hg'; cases hg'
+        rw [update_same] at hb
+        simp only [Option.map_some, Option.some.injEq, Prod.mk.injEq] at hb
+        right
+        rw [← hao, ← hb.2]
+        simp [move, hr, hs]
+      · rw [update_other _ _ _ _ hk, hg] at hb
+        simp only [Option.map_some, Option.some.injEq, Prod.mk.injEq] at hb
+        left; rw [← hao, ← hb.2]
+    | offload k' =>
+      obtain ⟨g', sec, hg', hs⟩ := he
+      simp only [apply, hg'] at hb
+      by_cases hk : k = k'
+      · subst hk
+        rw [hg] at hg'; cases hg'
+        rw [update_same] at hb
+        simp only [Option.map_some, Option.some.injEq, Prod.mk.injEq] at hb
+        rw [← hao, ← hb.2]
+        cases hr : g.resident with
+        | none => left; simp [hr]
+        | some v => right; simp [move, hr, hs]
+      · rw [update_other _ _ _ _ hk, hg] at hb
+        simp only [Option.map_some, Option.some.injEq, Prod.mk.injEq] at hb
+        left; rw [← hao, ← hb.2]
+    | cacheFill k' =>
+      obtain ⟨g', sec, v, hg', hs, hd⟩ := he
+      simp only [apply, hg'] at hb
+      rw [hg] at hb
+      simp only [Option.map_some, Option.some.injEq, Prod.mk.injEq] at hb
+      rw [← hao, ← hb.2]
+      by_cases hk : k = k'
+      · subst hk
+        rw [hg] at hg'; cases hg'
+        have hnew : (cacheFind (⟨k, g.id, g.val⟩ :: s.cache) k g.id).isSome = true :=
+          cacheFind_isSome_of_mem (List.mem_cons_self ..) rfl rfl
+        cases hc : (cacheFind s.cache k g.id).isSome with
+        | true => left; simp [hnew]
+        | false => right; simp [move, hnew, hs]
+      · left; rw [cacheFind_cons_other hk]
+    | cacheDrop i =>
+      simp only [apply] at hb
+      rw [hg] at hb
+      simp only [Option.map_some, Option.some.injEq, Prod.mk.injEq] at hb
+      rw [← hao, ← hb.2]
+      cases hc : (cacheFind s.cache k g.id).isSome with
+      | false =>
+        left
+        cases hc' : (cacheFind (s.cache.eraseIdx i) k g.id).isSome with
+        | false => rfl
+        | true => have := cacheFind_eraseIdx hc'; rw [hc] at this; cases this
+      | true =>
+        cases hc' : (cacheFind (s.cache.eraseIdx i) k g.id).isSome with
+        | true => left; rfl
+        | false => right; simp [move]
+    | retire sec =>
+      simp only [apply] at hb
+      rw [hg] at hb
+      simp only [Option.map_some, Option.some.injEq, Prod.mk.injEq] at hb
+      left; rw [← hao, ← hb.2]
+
 /-! ### non-vacuity: a run through every kind of step -/
 example :
     let l : List Step := [.put 1 10, .writeOut 1 16, .offload 1, .cacheFill 1, .put 1 11, .retire 16, .cacheDrop 0, .del 1, .put 2 5]
